@@ -27,7 +27,7 @@ ASSUMPTIONS = [
 ]
 REQUIRED = {'mirror_checks': 8000, 'source_updates': 2000, 'overrides': 300, 'relinks': 300, 'nested_links': 200, 'leak_checks': 3000, 'triggers': 100,
             'same_reference_reassigned': 20, 'overrides_from_trigger_callback': 50, 'equal_comparing_source_cases': 40,
-            'targets_sharing_parameter_objects': 40, 'assignments_from_on_init_method': 100, 'arraylike_source_values': 100}
+            'targets_sharing_parameter_objects': 40, 'assignments_from_on_init_method': 100, 'arraylike_source_values': 100, 'overrides_from_sync_callback': 40}
 
 _st = {}
 _n = [0]
@@ -85,6 +85,7 @@ def setup(P):
 def case_reset(idx):
     # tokens are a function of the case index, so that a single case replays exactly as it ran inside its shard
     _n[0] = idx * 37
+    _st['rxpool'] = []
 
 
 def fresh():
@@ -162,10 +163,19 @@ def make_ref(rng, srcs, tparam):
         def g(a):
             return a + 10
         return param.depends(s.param[pn])(g), (lambda: getattr(s, pn) + 10), 'depends', {(i, pn)}
+    pool = _st.setdefault('rxpool', [])
+    if pool and rng.random() < 0.45:
+        # a new expression derived, now, from a reactive expression that was built (and possibly linked, read, unlinked)
+        # earlier in this history
+        r0, ev0, deps0 = rng.choice(pool)
+        return r0 * 2, (lambda: ev0() * 2), 'rx-derived-later', set(deps0)
     if c == 4:
-        return s.param[pn].rx() + 1, (lambda: getattr(s, pn) + 1), 'rx+1', {(i, pn)}
-    f = lambda a, b: a - b        # noqa: E731
-    return s.param[pn].rx().rx.pipe(f, s2.param[pn2]), (lambda: getattr(s, pn) - getattr(s2, pn2)), 'rx.pipe', {(i, pn), (j, pn2)}
+        out = s.param[pn].rx() + 1, (lambda: getattr(s, pn) + 1), 'rx+1', {(i, pn)}
+    else:
+        f = lambda a, b: a - b        # noqa: E731
+        out = s.param[pn].rx().rx.pipe(f, s2.param[pn2]), (lambda: getattr(s, pn) - getattr(s2, pn2)), 'rx.pipe', {(i, pn), (j, pn2)}
+    pool.append((out[0], out[1], out[3]))
+    return out
 
 
 RAISES = ('<reference has no value>',)
@@ -348,10 +358,37 @@ def run_case(idx, rng, P, rep):
             steps.append('source-update')
             trace.append(('source-update', si, pn, v))
             rep.count('source_updates')
+            armed = None
+            if rng.random() < 0.2:
+                # a user watcher on a linked parameter (A) of some target overrides ANOTHER linked parameter (B, fed by other
+                # sources only) of that target with a plain value when A is brought up to date by this source assignment
+                cands = [(tj, a_, b_) for tj in range(ntg) for a_, (_e, _k, da) in links[tj].items() if (si, pn) in da and a_ not in unspec[tj]
+                         for b_, (_e2, _k2, db) in links[tj].items() if b_ != a_ and not any(d_[0] == si for d_ in db)]
+                if cands:
+                    tj, a_, b_ = rng.choice(cands)
+                    pv_ = {'x': fresh(), 'y': fresh(), 'z': ('plain', fresh()), 'l': [fresh()], 'd': {'p': fresh()}}[b_]
+                    armed = dict(tj=tj, a=a_, b=b_, v=pv_, fired=False)
+
+                    def _cb(*evs, armed=armed):
+                        if not armed['fired']:
+                            armed['fired'] = True
+                            setattr(targets[armed['tj']], armed['b'], armed['v'])
+                    armed['w'] = targets[tj].param.watch(_cb, a_, onlychanged=False)
+                    trace.append(('armed-override-from-sync-callback', tj, a_, b_))
             try:
                 unchanged = (getattr(srcs[si], pn) is v) if isinstance(v, Vec) else getattr(srcs[si], pn) == v
                 n_deliv = len(deliveries)
-                setattr(srcs[si], pn, v)
+                try:
+                    setattr(srcs[si], pn, v)
+                finally:
+                    if armed is not None:
+                        targets[armed['tj']].param.unwatch(armed['w'])
+                        if armed['fired']:
+                            links[armed['tj']].pop(armed['b'], None)
+                            plain[armed['tj']][armed['b']] = armed['v']
+                            unspec[armed['tj']].discard(armed['b'])
+                            rep.count('overrides_from_sync_callback')
+                            flags['pending'] = True
                 # one source assignment reaches each linked parameter at most once
                 seen_once = set()
                 for dk in deliveries[n_deliv:]:
